@@ -197,7 +197,9 @@ func (s DKGParticipantStatus) String() string {
 // Signing proposal
 
 type SigningConfirmation struct {
-	BatchID          string
+	BatchID string
+	// UsedBatchIDs lists every batch id proposed in this round so far: an id is used once
+	UsedBatchIDs     []string
 	InitiatorId      int
 	Quorum           SigningProposalQuorum
 	RecoveredKey     []byte
